@@ -159,12 +159,20 @@ func (d *DepositStore) AddNodeBalance(id store.NodeID, c *big.Int) error {
 
 func (d *DepositStore) GetNodeBalance(nodeID store.NodeID) (store.Balance, error) {
 	d.point("GetNodeBalance")
+	if d.FailBalanceOps > 0 {
+		d.FailBalanceOps--
+		return store.Balance{}, errors.New("balance store failure (injected)")
+	}
 	d.sync()
 	return d.cp.GetNodeBalance(nodeID)
 }
 
 func (d *DepositStore) GetAccountBalance(a store.Account) (store.Balance, error) {
 	d.point("GetAccountBalance")
+	if d.FailBalanceOps > 0 {
+		d.FailBalanceOps--
+		return store.Balance{}, errors.New("balance store failure (injected)")
+	}
 	d.sync()
 	return d.cp.GetAccountBalance(a)
 }
@@ -551,6 +559,26 @@ func Watched[T any](what string, f func() (T, error)) (T, error) {
 // node ids to connections or connections to node ids, found by type, not by name - canonically, with
 // connections named by the fake host behind them. It is the implementation's own notion of "which
 // host is registered where" and belongs into BFS state keys of checks about registrations.
+func plainType(t reflect.Type) bool {
+	switch t.Kind() {
+	case reflect.Bool, reflect.Int, reflect.Int8, reflect.Int16, reflect.Int32, reflect.Int64, reflect.Uint, reflect.Uint8, reflect.Uint16,
+		reflect.Uint32, reflect.Uint64, reflect.Float32, reflect.Float64, reflect.String:
+		return true
+	case reflect.Slice, reflect.Array:
+		return plainType(t.Elem())
+	case reflect.Map:
+		return plainType(t.Key()) && plainType(t.Elem())
+	case reflect.Struct:
+		for i := 0; i < t.NumField(); i++ {
+			if !plainType(t.Field(i).Type) {
+				return false
+			}
+		}
+		return true
+	}
+	return false
+}
+
 func (w *PoolWorld) RegistryKey() string {
 	v := reflect.ValueOf(w.Pool).Elem()
 	svcT := reflect.TypeOf((*jsonrpc2.Service)(nil)).Elem()
@@ -577,6 +605,18 @@ func (w *PoolWorld) RegistryKey() string {
 		}
 		kt, vt := f.Type().Key(), f.Type().Elem()
 		if !((kt == idT && vt == svcT) || (kt == svcT && vt == idT)) {
+			// any other private map made of plain data (strings, numbers, slices and structs of
+			// them) is state too: two histories are the same state only if these agree as well
+			if plainType(kt) && plainType(vt) {
+				f = accessibleCopy(f)
+				var entries []string
+				it := f.MapRange()
+				for it.Next() {
+					entries = append(entries, fmt.Sprintf("%v->%v", it.Key().Interface(), it.Value().Interface()))
+				}
+				sort.Strings(entries)
+				out = append(out, fmt.Sprintf("%d{%s}", i, strings.Join(entries, ",")))
+			}
 			continue
 		}
 		f = accessibleCopy(f)
